@@ -80,8 +80,8 @@ def make_wb(f_group_rel: bool, f_extra: bool, f_trans: bool, f_params: bool, f_r
 
 def c16_roundtrip(f_group_rel: bool, f_extra: bool, f_trans: bool, f_params: bool, f_repeat: bool, f_settings: bool, c0: int) -> bool:
     """
-    pre: 33 <= c0 <= 126 and c0 != 36
-    post: _ == True
+    vpre: 33 <= c0 <= 126 and c0 != 36
+    vpost: _ == True
     """
     T = [S(c0, 65 + i) for i in range(12)]
     wb = make_wb(f_group_rel, f_extra, f_trans, f_params, f_repeat, f_settings, T)
